@@ -12,7 +12,7 @@ BUILDS = {
     },
 }
 
-HOOK_COMMITS = ["9bb871a", "5fa190b"]
+HOOK_COMMITS = ["9bb871a", "5fa190b", "b49a9e6"]
 FIX_COMMITS = ["1a9feb3", "a54e157", "e8eadf0", "4275899", "412168a", "4a034f9", "750341c", "67a090c", "d38134c"]
 
 # properties not claimed, with the reason (filled while the checks are being built)
@@ -317,6 +317,26 @@ PROPS = {
             {"engine": "th", "quick": 160, "thorough": 16000, "what": "E-T, default (v1) port"},
             {"engine": "vt", "build": "alt", "quick": 6000, "thorough": 400000, "what": "E-A, v2 port (alt build: async-trait + output-port-v2, no cluster)"},
             {"engine": "th", "build": "alt", "quick": 160, "thorough": 16000, "what": "E-T, v2 port (alt build)"},
+        ],
+    },
+    "C17": {
+        "level": "exploration",
+        "technique": "runtime monitoring: (fsm) every message sequence of length <= 5 over a 14 / 12 symbol template alphabet driven through the two real authentication state machines (H5 steppers) with an acceptance oracle; (vt) a real NodeServer/NodeSession over an in-memory stream fed by a seeded adversarial peer, with H5 delivery / proxy / pg-join points, probe actors, GetSessions, GetAuthenticationState sampling, node events and session status as observers",
+        "level_text": ("(fsm) all 850 646 sequences of length <= 5 are executed on every run: Ok is reached only when the peer-controlled messages are "
+                       "exactly the honest ones with the digest of the issued challenge under the real cookie (wrong-cookie, garbage, empty and replayed "
+                       "digests, wrong-direction and empty messages all included), and Close is absorbing. (vt) seeded adversaries on server-side and "
+                       "client-side sessions send 1-14 auth / control / node frames (Spawn, PgJoin, PgLeave, Terminate, Ready, Enumerate, Cast, Call, "
+                       "Reply, empty envelopes, fragments, trailing garbage) without proving the cookie: no delivery / proxy / pg-join point fires, no "
+                       "local actor handles anything, no remote member appears, GetSessions stays empty, no authenticated/ready event, authentication "
+                       "state false at every sample, a deviating auth frame leaves the session Stopped. A quarter of the server-side scenarios complete "
+                       "the handshake honestly and then cast to an advertised remotable pid, a non-remotable pid and an unknown pid: only the first is "
+                       "delivered."),
+        "level_note": "The fsm run is exhaustive over its alphabet and length bound; byte-level malformed frames are C19's subject.",
+        "rule": "fsm: every sequence is a distinct case (counted, first 100k hashed per shard). vt: non-trivial = >= 1 adversarial frame sent; distinct = hash(frame kinds sent, session side, authenticated?).",
+        "assumptions": ["the in-memory duplex stream injected through the public external-transport API stands in for TCP"],
+        "runs": [
+            {"engine": "fsm", "quick": 14, "thorough": 14, "what": "exhaustive enumeration of message sequences (length <= 5) on both auth state machines"},
+            {"engine": "vt", "quick": 3200, "thorough": 300000, "what": "E-A: real NodeServer + adversarial peer over an in-memory stream"},
         ],
     },
 }
